@@ -181,10 +181,52 @@ func (st *Std) scanFunc(f *Func) {
 	}
 	st.scanned[f] = true
 	info := f.Info()
+	// named results: a deferred closure that assigns one changes what is returned
+	named := map[types.Object]bool{}
+	if ft := f.Type; ft != nil && ft.Results != nil {
+		for _, fld := range ft.Results.List {
+			for _, nm := range fld.Names {
+				if o := info.Defs[nm]; o != nil {
+					named[o] = true
+				}
+			}
+		}
+	}
 	var walk func(n ast.Node, inLit bool)
 	walk = func(n ast.Node, inLit bool) {
 		ast.Inspect(n, func(x ast.Node) bool {
 			switch y := x.(type) {
+			case *ast.DeferStmt:
+				// `defer func() { … err = tx.Commit() … }()`: the literal runs when the
+				// function is left, after the value of an unnamed result has been fixed, so
+				// its assignments do not disturb what the body's flow knows about a local
+				if fl, ok := ast.Unparen(y.Call.Fun).(*ast.FuncLit); ok && !inLit && len(y.Call.Args) == 0 {
+					ast.Inspect(fl.Body, func(z ast.Node) bool {
+						switch w := z.(type) {
+						case *ast.FuncLit:
+							walk(w.Body, true)
+							return false
+						case *ast.UnaryExpr:
+							if w.Op == token.AND {
+								if o := ObjOf(info, w.X); o != nil {
+									st.untrackable[o] = true
+								}
+							}
+						case *ast.AssignStmt:
+							for _, l := range w.Lhs {
+								if o := ObjOf(info, l); o != nil && named[o] {
+									st.untrackable[o] = true
+								}
+							}
+						case *ast.IncDecStmt:
+							if o := ObjOf(info, w.X); o != nil && named[o] {
+								st.untrackable[o] = true
+							}
+						}
+						return true
+					})
+					return false
+				}
 			case *ast.FuncLit:
 				if x != n {
 					walk(y.Body, true)
